@@ -38,7 +38,7 @@ func (c13) Runs(tier string) int {
 	if tier == "thorough" {
 		return 300000
 	}
-	return 16000
+	return 12000
 }
 
 var schedPolicies = []string{"uniform", "sticky", "roundrobin", "onput", "onget", "pct"}
